@@ -105,7 +105,7 @@ func runApiStream(o Opts, prop, oracle string, mix apiMix) error {
 			}
 		}
 	}
-	if prop == "C06" && o.Replay == "" {
+	if prop == "C06" && s.ReplayWants("net-") {
 		netC06(s, o.Tier)
 	}
 	return s.Close()
